@@ -67,6 +67,7 @@ mut('C10', 'is_symlink_file_default_wrong', 'src/sys/fs/entry.rs', "        self
 mut('C11', 'chmod_ignores_link_guard', MV, "            if (!src.is_symlink() || opts.follow) && m2 != src.mode() && m2 != 0 {", "            if m2 != src.mode() && m2 != 0 {")
 mut('C11', 'set_mode_direct', ME, "        // Set the new mode\n        self.mode = opts.mode;", "        // Set the new mode\n        self.mode = mode.unwrap_or(opts.mode);")
 mut('C11', 'chmod_dirs_sets_files', 'src/sys/fs/chmod.rs', "    pub fn dirs(mut self, mode: u32) -> Self {\n        self.opts.dirs = mode;", "    pub fn dirs(mut self, mode: u32) -> Self {\n        self.opts.files = mode;")
+mut('C11', 'mode_mismatch_returns', 'src/sys/fs/chmod.rs', "                        // target mismatch so skip this clause and carry on with the next one\n                        while let Some(x) = chars.pop() {\n                            if x == ',' {\n                                break;\n                            }\n                        }\n                        break;", "                        return Ok(mode); // target mismatch so just return the original mode")
 mut('C11', 'chown_not_recursive_by_flag', MV, "        let max_depth = if opts.recursive { usize::MAX } else { 0 };\n        let entries = self.entries(&opts.path)?.max_depth(max_depth).follow(opts.follow);", "        let max_depth = if opts.recursive { 0 } else { usize::MAX };\n        let entries = self.entries(&opts.path)?.max_depth(max_depth).follow(opts.follow);")
 mut('C11', 'stdfs_is_exec_follows', SM, "            Ok(x) => match fs::symlink_metadata(x) {\n                Ok(y) => y.permissions().mode() & 0o111 != 0,", "            Ok(x) => match fs::metadata(x) {\n                Ok(y) => y.permissions().mode() & 0o111 != 0,")
 # ---- C12
